@@ -222,10 +222,15 @@ Return ==
   /\ pseen' = IF ret > 0 /\ ParetoMode THEN pseen \cup {Pt(ret).o} ELSE pseen
   /\ UNCHANGED <<sid, init, blocked, frames, model, call, inc, incs, iter, stop, ret, ncalls, definite, nsolve, reinit>>
 
+\* named disjuncts (TLC -coverage reports how often each action was taken)
+CallFindAnotherVarSome == \E x \in 1..Sc.nvars : CallFindAnotherVar(x)
+CheckSatSome           == \E w \in W : CheckSat(w)
+LoopCheckSatSome       == \E w \in W : LoopCheckSat(w)
+
 Next ==
   \/ CallInitialize \/ CallExport \/ CallSolve \/ CallFindAnother
-  \/ \E x \in 1..Sc.nvars : CallFindAnotherVar(x)
-  \/ \E w \in W : CheckSat(w) \/ LoopCheckSat(w)
+  \/ CallFindAnotherVarSome
+  \/ CheckSatSome \/ LoopCheckSatSome
   \/ CheckUnsat \/ CheckUnknown \/ CheckUnsatOutsideFragment \/ LoopCheckUnsatOutsideFragment
   \/ LoopMaxIter \/ LoopCheckUnsat \/ LoopCheckUnknown
   \/ StopBound \/ StopTime \/ PushBound \/ PopFrame \/ LoopExit
@@ -274,7 +279,7 @@ Prop_C12_VarDiffers ==
 NextLive ==
   \/ (nsolve = 0 /\ CallSolve)
   \/ (nsolve = 1 /\ ret # 0 /\ CallFindAnother)
-  \/ \E w \in W : CheckSat(w) \/ LoopCheckSat(w)
+  \/ CheckSatSome \/ LoopCheckSatSome
   \/ CheckUnsat \/ LoopMaxIter \/ LoopCheckUnsat
   \/ StopBound \/ StopTime \/ PushBound \/ PopFrame \/ LoopExit
   \/ Return
